@@ -9,6 +9,7 @@
 #include <ipr/impl>
 #include <ipr/io>
 #include <functional>
+#include <memory>
 #include <map>
 #include <set>
 #include <list>
@@ -180,6 +181,7 @@ struct Sweep {
    std::list<impl::Module> modules;
    std::vector<std::pair<const void*, std::function<const ipr::Expr*(const ipr::Expr*)>>> classic;   // nodes that can record a user-supplied implementation
    bool twins_unavailable = false;            // the platform hash is not the one the twin generator inverts
+   long long twin_requests = 0;               // requests made with operand twins (sweep_neighbours.hpp)
 
    Sweep(impl::Lexicon& l, impl::Translation_unit& u, Rng& r) : lex(l), unit(u), rng(r), P(l, u, r) { }
 
